@@ -167,6 +167,13 @@ pub fn make_sigid(signal: c_int, action: u128) -> SigId {
 }
 
 /// Shim word ids of the two half-locks: [data ptr, generation, lock0, lock1, mutex] each.
+/// Shim word ids of the four reader counters (two per half-lock).
+pub fn lock_counter_vars() -> [usize; 4] {
+    let g = GlobalData::ensure();
+    let a = g.data.verif_ids();
+    let b = g.race_fallback.verif_ids();
+    [a.2, a.3, b.2, b.3]
+}
 pub fn data_mutex_var() -> usize {
     GlobalData::ensure().data.verif_mutex_id()
 }
